@@ -2,6 +2,11 @@ package verifsim
 
 import (
 	"fmt"
+	"math/big"
+
+	"github.com/idena-network/idena-go/blockchain/attachments"
+	"github.com/idena-network/idena-go/verifutil"
+	"github.com/idena-network/idena-go/vm/embedded"
 
 	"github.com/idena-network/idena-go/blockchain/types"
 	"github.com/idena-network/idena-go/blockchain/validation"
@@ -102,4 +107,114 @@ func touched(tx *types.Transaction) []common.Address {
 		l = append(l, *tx.To)
 	}
 	return l
+}
+
+// TwinSeq is Twin for a SEQUENCE of transactions in one block (all must be included, in the
+// pool's order - use one sender with consecutive nonces to fix it): block Bn carrying them
+// versus block B0 carrying none.
+func (w *World) TwinSeq(t *Replica, txs []*types.Transaction) (*TwinResult, error) {
+	res := &TwinResult{}
+	t.enter()
+	if !t.CanPropose() {
+		return nil, fmt.Errorf("twin owner cannot propose at this head")
+	}
+	clear := func() {
+		for _, old := range t.TxPool.VerifAll() {
+			t.TxPool.Remove(old)
+		}
+	}
+	clear()
+	res.B0 = t.Chain.ProposeBlock(nil).Block
+	if len(res.B0.Body.Transactions) != 0 {
+		return nil, fmt.Errorf("twin: B0 is not tx-free")
+	}
+	for _, tx := range txs {
+		if err := t.TxPool.AddExternalTxs(validation.InboundTx, tx); err != nil {
+			clear()
+			res.Note = "pool refused: " + ErrClass(err)
+			return res, nil
+		}
+	}
+	res.B1 = t.Chain.ProposeBlock(nil).Block
+	clear()
+	if len(res.B1.Body.Transactions) != len(txs) {
+		return res, nil
+	}
+	res.Included = true
+	var e0, e1 error
+	res.Post0, _, e0 = t.Chain.VerifValidateOnCheck(res.B0)
+	res.Post1, res.Receipts, e1 = t.Chain.VerifValidateOnCheck(res.B1)
+	if e0 != nil {
+		return nil, fmt.Errorf("twin: B0 does not validate: %v", e0)
+	}
+	if e1 != nil {
+		return res, fmt.Errorf("twin: B1 built by ProposeBlock does not validate: %v", e1)
+	}
+	return res, nil
+}
+
+// GasSweepSeqs looks for a contract call that succeeds at the current head and returns
+// sequences [the same call with a gas limit k units short, a contract tx that succeeds] of one
+// sender: a failure in the middle of an execution followed by a success in the same block.
+func (w *World) GasSweepSeqs(r *verifutil.Rng, t *Replica, maxSeqs int) [][]*types.Transaction {
+	v := w.View()
+	st := v.AppState.State
+	feeRate := st.FeePerGas()
+	if feeRate.Sign() == 0 {
+		return nil
+	}
+	var out [][]*types.Transaction
+	for _, c := range contractsByWorld[w] {
+		if len(out) >= maxSeqs {
+			break
+		}
+		if st.GetCodeHash(c.Addr) == nil || st.GetBalance(c.Owner.Addr).Cmp(Dna(100)) < 0 {
+			continue
+		}
+		dest := w.anyAddr(r)
+		for _, att := range []*attachments.CallContractAttachment{
+			attachments.CreateCallContractAttachment("transfer", dest.Bytes(), big.NewInt(int64(r.Range(1, 1000))).Bytes()),
+			attachments.CreateCallContractAttachment("add", dest.Bytes()),
+			attachments.CreateCallContractAttachment("send", dest.Bytes(), Dna(1).Bytes()),
+		} {
+			pl, _ := att.ToBytes()
+			nonce := w.StateNonce(c.Owner)
+			ep := st.Epoch()
+			pay := Dna(int64(r.Range(1, 5)))
+			mk := func(limit int64, n uint32) *types.Transaction {
+				// MaxFee = tx fee + limit * feePerGas; the fee depends on the tx size, which depends on the
+				// byte length of MaxFee: iterate to the fixed point
+				maxFee := Dna(1)
+				var tx *types.Transaction
+				for i := 0; i < 4; i++ {
+					tx = SignedTx(c.Owner, types.CallContractTx, &c.Addr, pay, maxFee, nil, n, ep, pl)
+					want := new(big.Int).Add(w.FeeFor(tx), new(big.Int).Mul(feeRate, big.NewInt(limit)))
+					if want.Cmp(maxFee) == 0 {
+						break
+					}
+					maxFee = want
+				}
+				return tx
+			}
+			probe := mk(50000, nonce)
+			tr, err := w.Twin(t, probe, false)
+			if err != nil || tr == nil || !tr.Included || len(tr.Receipts) != 1 || !tr.Receipts[0].Success {
+				continue
+			}
+			g := int64(tr.Receipts[0].GasUsed)
+			minStake := new(big.Int).Mul(feeRate, big.NewInt(3000000))
+			datt := attachments.CreateDeployContractAttachment(embedded.MultisigContract, nil, nil, []byte{2}, []byte{1})
+			dpl, _ := datt.ToBytes()
+			for _, k := range []int64{1, int64(r.Range(2, 29)), 30, 31, int64(r.Range(32, 200)), g / 2} {
+				if k >= g || len(out) >= maxSeqs {
+					continue
+				}
+				short := mk(g-k, nonce)
+				ok := SignedTx(c.Owner, types.DeployContractTx, nil, new(big.Int).Add(minStake, big.NewInt(int64(k))), new(big.Int).Mul(feeRate, big.NewInt(200000)), nil, nonce+1, ep, dpl)
+				out = append(out, []*types.Transaction{short, ok})
+			}
+			break
+		}
+	}
+	return out
 }
